@@ -276,9 +276,12 @@ def check_pair(item):
             res["status"] = "precondition-literal-alone-not-a-fixpoint"
             return res
     inp = {"kind": "pair", "family": family, "sql": s, "dialect": d}
+    # generator options: "pretty:<family>" runs the same contract with pretty=True (keys carry the option)
+    gopts = {"pretty": True} if family.startswith("pretty:") else {}
+    ksuf = "-pretty" if gopts else ""
 
     def V(clause, cause, what, **extra):
-        res["viol"].append((f"c01:{clause}:{dname(d)}:{cause}", what, dict(inp, **extra)))
+        res["viol"].append((f"c01:{clause}{ksuf}:{dname(d)}:{cause}", what, dict(inp, **extra)))
 
     st, trees = _call(lambda: D.parse(s))
     res["parse"] += 1
@@ -292,7 +295,7 @@ def check_pair(item):
     has_time = bool(D.TIME_MAPPING)
     tcls = time_classes(d) if has_time else frozenset()
     for ti, t0 in enumerate(trees):
-        st, s1 = _call(lambda: D.generate(t0))
+        st, s1 = _call(lambda: D.generate(t0, **gopts))
         res["gen"] += 1
         if st != "ok":
             res["status"] = {"err": "ungenerable", "foreign": "skipped-foreign", "hang": "skipped-hang"}[st]
@@ -316,7 +319,7 @@ def check_pair(item):
             continue
         t1 = r1[0]
         # (ii)
-        st, s2 = _call(lambda: D.generate(t1))
+        st, s2 = _call(lambda: D.generate(t1, **gopts))
         res["gen"] += 1
         if st != "ok":
             res["status"] = {"err": "ungenerable", "foreign": "skipped-foreign", "hang": "skipped-hang"}[st]
@@ -337,7 +340,7 @@ def check_pair(item):
             nonlocal tag
             if tag is None:
                 tag = "+unsupported" if any(
-                    isinstance(_call(lambda: D.generate(t, unsupported_level=E.ErrorLevel.RAISE))[1], E.UnsupportedError) for t in (t0, t1)
+                    isinstance(_call(lambda: D.generate(t, unsupported_level=E.ErrorLevel.RAISE, **gopts))[1], E.UnsupportedError) for t in (t0, t1)
                 ) else ""
             return tag
 
@@ -360,7 +363,7 @@ def check_pair(item):
             cls, pfmt = lost[0]
             V("time-format", f"{cls}{utag()}", f"format {pfmt!r} of {cls} is not in parse(s1): its string literals are {string_literals(t1)[:4]}", s1=s1, s2=s2, tree=ti)
     # public API pair (single statement only: parse_one wraps several statements into a Block)
-    if len(trees) == 1 and res["evals"]:
+    if len(trees) == 1 and res["evals"] and not gopts:
         st, sa = _call(lambda: sqlglot.parse_one(s, read=d or None).sql(dialect=d or None))
         res["parse"] += 1
         res["gen"] += 1
@@ -487,6 +490,7 @@ def op_statements(d, tier):
 STRINGS = ["'abc'", "'it''s'", "''", "' '", "'a\"b'", "'a\\b'", "'a\\\\b'", "'a\\'b'", "'multi word'", "'%'", "'_'", "'a--b'", "'a/*b*/c'",
            "N'nat'", "E'a\\nb'", "'línea'", "\"dq\"", "`bt`", "'a\nb'", "'a\tb'", "'a' 'b'", "'{x}'", "'$1'", "$$dollar$$", "r'raw\\d'",
            "U&'d\\0061t'", "_utf8'abc'", "'''triple'''"]
+MULTILINE_STRINGS = ["'line1\nline2'", "'a\n  b\n\nc'", "N'line1\nline2'", "U&'line1\nline2'", "E'line1\nline2'", "r'line1\nline2'", "$$line1\nline2$$", "b'line1\nline2'", "\"col\nname\"", "`col\nname`", "'''line1\nline2'''", "_utf8'line1\nline2'", "'tab\there\r\nnext'"]
 NUMBERS = ["0", "1", "42", "1.5", "1.", ".5", "0.5", "1e10", "1E10", "1e-3", "1.5e+3", "1.5E-3", "0x1F", "0X1f", "0b101", "X'1F'", "x'1f'", "B'101'",
            "b'1'", "1_000", "9223372036854775808", "00012", "1.50", "-1", "+1", "- -1", "-(-1)", "- 1", "1D", "1L", "1.5F", "1BD", "100000000000000000000.0",
            "1e400", "NaN", "Infinity", "-.5", "0.", "1e+10"]
@@ -738,6 +742,16 @@ def timefmt_statements(job):
         else:
             keys = list(dict.fromkeys(v for v in D.TIME_MAPPING.values() if "\\" not in v))
             comps = _composites(keys, lambda v: format_time(v, D.INVERSE_TIME_MAPPING, D.INVERSE_TIME_TRIE))
+        # formats holding the characters a string literal has to escape (Java-style patterns quote literal text with ', e.g. 'T')
+        if len(keys) >= 2:
+            k1, k2 = keys[0], keys[1]
+            special = [k1 + "'T'" + k2, k1 + "\\" + k2, k1 + '"' + k2, "'at' " + k1]
+            esc = D.tokenizer_class.STRING_ESCAPES
+            for tpl in ts:
+                for c in special:
+                    out.append("SELECT " + tpl.replace("{f}", _sql_str(c)))  # quote doubled (adjacent literals where '' is no escape)
+                    if "'" not in esc and "\\" in esc:
+                        out.append("SELECT " + tpl.replace("{f}", "'" + c.replace("\\", "\\\\").replace("'", "\\'") + "'"))  # backslash-escaped
         if tier == "quick":
             for i, tpl in enumerate(ts):
                 for c in comps[i % 5::5]:
@@ -779,6 +793,13 @@ def families(tier):
     else:
         add("literal-sequences", ((s, d) for s in lseq for d in ds))
     add("quote-mix", ((s, d) for s in quote_mix_statements(tier) for d in ds))
+    # generator option pretty=True: multi-line literals of every kind (their inside must not be re-indented), and the statement corpus
+    ml = [f"SELECT {lit}" for lit in STRINGS + MULTILINE_STRINGS] + [f"SELECT a FROM t WHERE b = {lit} AND c IN ({lit}, 'x')" for lit in MULTILINE_STRINGS]
+    add("pretty:literals", ((s, d) for s in ml for d in ds))
+    if tier == "quick":
+        add("pretty:statements", ((s, d) for g, s in enumerate(corpus.STATEMENTS) for d in [""] + others[g % 4::4]))
+    else:
+        add("pretty:statements", ((s, d) for s in corpus.STATEMENTS for d in ds))
     lctx = literal_context_statements()
     stats["literal-contexts"] = len(lctx) * len(ds)
     items.extend((f"literal-contexts|{lit}", s, d) for lit, s in lctx for d in ds)
